@@ -19,6 +19,17 @@ Resolve(search, m, fmt) ==
   LET p == IF SubSeq(m, 1, 1) = "/" THEN m ELSE search \o m IN
   IF Len(m) > 1 /\ fmt # "mmd" /\ EndsWith(m, ".*") THEN SubSeq(p, 1, Len(p) - 2) \o Ext(fmt) ELSE p
 
+\* the file system resolves "." and ".." components; the library passes the concatenated string to it as is
+RECURSIVE SplitAt(_, _, _), NormC(_, _)
+SplitAt(p, i, cur) == IF i > Len(p) THEN <<cur>> ELSE IF SubSeq(p, i, i) = "/" THEN <<cur>> \o SplitAt(p, i + 1, "") ELSE SplitAt(p, i + 1, cur \o SubSeq(p, i, i))
+NormC(cs, acc) == IF cs = <<>> THEN acc
+                  ELSE LET c == Head(cs) IN
+                       IF c = "." \/ (c = "" /\ acc # <<>>) THEN NormC(Tail(cs), acc)              \* "." and doubled separators name the same folder
+                       ELSE IF c = ".." /\ acc # <<>> /\ acc[Len(acc)] \notin {"..", ""} THEN NormC(Tail(cs), SubSeq(acc, 1, Len(acc) - 1))
+                       ELSE NormC(Tail(cs), Append(acc, c))
+RECURSIVE JoinSl(_)
+JoinSl(cs) == IF cs = <<>> THEN "" ELSE IF Len(cs) = 1 THEN cs[1] ELSE cs[1] \o "/" \o JoinSl(Tail(cs))
+FsKey(p) == JoinSl(NormC(SplitAt(p, 1, ""), <<>>))
 MaxMarker == 1000          \* "cap at 1000 characters": a marker whose {{...}} span reaches this is left alone
 T(s) == [k |-> "t", s |-> s]
 M(s) == [k |-> "m", s |-> s]
@@ -28,14 +39,14 @@ Render(atoms) == IF atoms = <<>> THEN "" ELSE MarkerSrc(Head(atoms)) \o Render(T
 RECURSIVE RepX(_)
 RepX(n) == IF n = 0 THEN "" ELSE "x" \o RepX(n - 1)
 \* pad (optional field): an "Abstract" of that many characters before the other keys -- the size of a metadata block has no bearing on what is stripped or honoured
-MetaText(path, f) == IF f.meta THEN "Title: t\n" \o (IF "pad" \in DOMAIN f THEN "Abstract: " \o RepX(f.pad) \o "\n" ELSE "") \o (IF f.base # "" THEN "Transclude Base: " \o f.base \o "\n" ELSE "") \o "\n" ELSE ""
+MetaText(path, f) == IF f.meta THEN "Title: t\n" \o (IF "cont" \in DOMAIN f THEN "Author: Jane\nDoe and others\nDate: 2020\n" ELSE "") \o (IF "pad" \in DOMAIN f THEN "Abstract: " \o RepX(f.pad) \o "\n" ELSE "") \o (IF f.base # "" THEN "Transclude Base: " \o f.base \o "\n" ELSE "") \o "\n" ELSE ""
 
 \* ---- the machine -----------------------------------------------------------------------------------------------
 \* st = [frames, pstack, manifest, done, out];  frame = [path, search, buf, pos, depth]
 \* fs: function from path to [atoms, meta, base]
-SearchOf(fs, path, inherited) == IF fs[path].meta /\ fs[path].base # "" THEN Dir(path) \o fs[path].base \o "/" ELSE inherited
+SearchOf(fs, path, inherited) == IF fs[FsKey(path)].meta /\ fs[FsKey(path)].base # "" THEN Dir(path) \o fs[FsKey(path)].base \o "/" ELSE inherited
 InitSt(fs, root, search) ==
-  [frames |-> << [path |-> root, search |-> SearchOf(fs, root, search), buf |-> fs[root].atoms, pos |-> 1, depth |-> 0] >>,
+  [frames |-> << [path |-> root, search |-> SearchOf(fs, root, search), buf |-> fs[FsKey(root)].atoms, pos |-> 1, depth |-> 0] >>,
    pstack |-> <<>>, manifest |-> <<>>, done |-> FALSE, out |-> <<>>]
 InSeq(x, s, n) == \E i \in 1 .. n : s[i] = x
 Step(fs, fmt, st) ==
@@ -46,7 +57,7 @@ Step(fs, fmt, st) ==
        IF n = 1 THEN [st EXCEPT !.done = TRUE, !.out = f.buf]
        ELSE LET p == st.frames[n - 1]
                 \* the child's metadata block is stripped; the blank line that ended it stays
-                ins == (IF fs[f.path].meta THEN <<T("\n")>> ELSE <<>>) \o f.buf
+                ins == (IF fs[FsKey(f.path)].meta THEN <<T("\n")>> ELSE <<>>) \o f.buf
                 nb == SubSeq(p.buf, 1, p.pos - 1) \o ins \o SubSeq(p.buf, p.pos + 1, Len(p.buf)) IN
             [st EXCEPT !.frames = Append(SubSeq(st.frames, 1, n - 2), [p EXCEPT !.buf = nb, !.pos = p.pos + Len(ins)]),   \* continue after the spliced text
                        !.pstack = SubSeq(st.pstack, 1, Len(st.pstack) - 1)]
@@ -55,8 +66,8 @@ Step(fs, fmt, st) ==
        ELSE LET path == Resolve(f.search, a.s, fmt) IN
             IF InSeq(path, st.pstack, f.depth) THEN [st EXCEPT !.frames[n].pos = f.pos + 1]          \* already being parsed: leave the marker
             ELSE LET man == IF InSeq(path, st.manifest, Len(st.manifest)) THEN st.manifest ELSE Append(st.manifest, path) IN
-                 IF path \notin DOMAIN fs THEN [st EXCEPT !.frames[n].pos = f.pos + 1, !.manifest = man]   \* missing file: marker stays
-                 ELSE [st EXCEPT !.frames = Append(st.frames, [path |-> path, search |-> SearchOf(fs, path, f.search), buf |-> fs[path].atoms, pos |-> 1,
+                 IF FsKey(path) \notin DOMAIN fs THEN [st EXCEPT !.frames[n].pos = f.pos + 1, !.manifest = man]   \* missing file: marker stays
+                 ELSE [st EXCEPT !.frames = Append(st.frames, [path |-> path, search |-> SearchOf(fs, path, f.search), buf |-> fs[FsKey(path)].atoms, pos |-> 1,
                                                                 depth |-> Len(st.pstack) + 1]),
                                  !.pstack = Append(st.pstack, path), !.manifest = man]
 RECURSIVE Run(_, _, _, _)
@@ -69,7 +80,7 @@ Subst(fs, fmt, atoms, search, fuel) ==
   ELSE LET a == Head(atoms) rest == Subst(fs, fmt, Tail(atoms), search, fuel) IN
        IF a.k = "t" \/ a.s = "TOC" \/ Len(a.s) + 2 >= MaxMarker THEN <<a>> \o rest
        ELSE LET path == Resolve(search, a.s, fmt) IN
-            IF path \notin DOMAIN fs THEN <<a>> \o rest
-            ELSE (IF fs[path].meta THEN <<T("\n")>> ELSE <<>>) \o Subst(fs, fmt, fs[path].atoms, SearchOf(fs, path, search), fuel - 1) \o rest
-Targets(fs, fmt, path, search) == {Resolve(SearchOf(fs, path, search), fs[path].atoms[i].s, fmt) : i \in {j \in 1 .. Len(fs[path].atoms) : fs[path].atoms[j].k = "m"}}
+            IF FsKey(path) \notin DOMAIN fs THEN <<a>> \o rest
+            ELSE (IF fs[FsKey(path)].meta THEN <<T("\n")>> ELSE <<>>) \o Subst(fs, fmt, fs[FsKey(path)].atoms, SearchOf(fs, path, search), fuel - 1) \o rest
+Targets(fs, fmt, path, search) == {FsKey(Resolve(SearchOf(fs, path, search), fs[path].atoms[i].s, fmt)) : i \in {j \in 1 .. Len(fs[path].atoms) : fs[path].atoms[j].k = "m"}}
 =============================================================================
